@@ -27,7 +27,7 @@ impl Property for C16 {
 
     fn cases(tier: Tier) -> u32 {
         match tier {
-            Tier::Quick => 1200,
+            Tier::Quick => 4800,
             Tier::Thorough => 150000,
         }
     }
